@@ -15,3 +15,32 @@ Proof. split; reflexivity. Qed.
 Lemma readers_receive_configuration :
   plumbing_envelope_reader_complete = true /\ plumbing_connect_unary_unmarshaler_complete = true.
 Proof. split; reflexivity. Qed.
+
+(* Further structural facts the models take for granted; each is stated by the
+   property whose model relies on it (Props/C09, C10, C11, C13, C19). *)
+
+(* C09: the decompressed-size limit is an argument of Decompress, passed by each
+   reader from its own configuration (readers_receive_configuration); a
+   compression pool — which an option value shares between every handler and
+   client it is given to — holds no limit *)
+Lemma decompress_limit_belongs_to_the_reader : decompress_limit_is_a_parameter = true.
+Proof. reflexivity. Qed.
+
+(* C10 / C15: the context a client interceptor hands down the chain is the
+   context the protocol client builds the call with *)
+Lemma chain_context_reaches_the_call : client_new_conn_uses_chain_context = true.
+Proof. reflexivity. Qed.
+
+(* C11: a server-streaming call merges the caller's request headers into those
+   already on the conn (what an interceptor attached stays) *)
+Lemma server_stream_headers_are_merged : server_stream_merges_request_headers = true.
+Proof. reflexivity. Qed.
+
+(* C13 / C05: the handler-side writers read an error's metadata and never write
+   to it: an error value returned by many calls is not shared mutable state *)
+Lemma error_metadata_is_read_only_for_the_library : handler_never_writes_error_meta = true.
+Proof. reflexivity. Qed.
+
+(* C19: whether a call panicked is recorded per call *)
+Lemma panicked_flag_is_per_call : recover_flag_is_per_call = true.
+Proof. reflexivity. Qed.
